@@ -45,19 +45,76 @@ def _has_var(t):
     return False
 
 
+_SCAN_CACHE = {}
+
+
+def _scan(e):
+    """One traversal per (top-level) formula, memoised: the ground pow2 / ilog2 / Bit applications, the
+    divisions by a power of two and the string-literal constants occurring in it."""
+    k = e.get_id()
+    hit = _SCAN_CACHE.get(k)
+    if hit is not None and hit[0].eq(e):
+        return hit[1]
+    rec = {"pow2": [], "ilog2": [], "Bit": [], "div": [], "strlit": []}
+    stack, seen = [e], set()
+    while stack:
+        t = stack.pop()
+        i = t.get_id()
+        if i in seen:
+            continue
+        seen.add(i)
+        if z3.is_quantifier(t):
+            stack.append(t.body())
+            continue
+        if not z3.is_app(t):
+            continue
+        d = t.decl()
+        n = t.num_args()
+        if n == 0:
+            nm = d.name()
+            if nm.startswith("strlit!"):
+                rec["strlit"].append(t)
+            continue
+        kind = d.kind()
+        if kind == z3.Z3_OP_UNINTERPRETED:
+            nm = d.name()
+            if n == 1 and nm in ("pow2", "ilog2"):
+                if not _has_var(t.arg(0)):
+                    rec[nm].append(t)
+            elif n == 2 and nm == "Bit":
+                if not _has_var(t.arg(0)):
+                    rec["Bit"].append(t)
+        elif kind == z3.Z3_OP_IDIV:
+            a1 = t.arg(1)
+            if z3.is_app(a1) and a1.num_args() == 1 and a1.decl().name() == "pow2" and not _has_var(t):
+                rec["div"].append(t)
+        stack.extend(t.children())
+    if len(_SCAN_CACHE) > 50000:
+        _SCAN_CACHE.clear()
+    _SCAN_CACHE[k] = (e, rec)
+    return rec
+
+
+def _gather(exprs, what):
+    out, seen = [], set()
+    for e in exprs:
+        for t in _scan(e)[what]:
+            i = t.get_id()
+            if i not in seen:
+                seen.add(i)
+                out.append(t)
+    return out
+
+
 def pow2_instances(exprs, down=2, up=1, max_terms=60):
     """Quantifier-free instances of the pow2 / ilog2 axioms for every ground pow2 term of the
     query (deterministic, no E-matching): positivity, small constants, doubling to the
     neighbouring exponents, injectivity via ilog2, pairwise monotonicity."""
     from .ops import pow2, ilog2
-    apps, seen = [], set()
-    for e in exprs:
-        _collect_apps(e, "pow2", apps, seen)
+    apps = _gather(exprs, "pow2")
     args = {}
     for a in apps:
         t = a.arg(0)
-        if _has_var(t):
-            continue
         t = z3.simplify(t)
         args.setdefault(str(t), (t, 0))
     # neighbours
@@ -92,30 +149,17 @@ def pow2_instances(exprs, down=2, up=1, max_terms=60):
             facts.append(z3.Implies(t >= cst, pow2(t) == 2 ** cst * pow2(u)))
             facts.append(z3.Implies(u >= 0, pow2(u) >= 1))
             facts.append(z3.Implies(u >= 0, ilog2(pow2(u)) == u))
-    lapps, seen2 = [], set()
-    for e in exprs:
-        _collect_apps(e, "ilog2", lapps, seen2)
+    lapps = _gather(exprs, "ilog2")
     ldone = set()
     for a in lapps:
         v = a.arg(0)
-        if _has_var(v) or str(v) in ldone:
+        if str(v) in ldone:
             continue
         ldone.add(str(v))
         for cst in range(0, 41):
             facts.append(z3.Implies(v == 2 ** cst, ilog2(v) == cst))
     # integer division by powers of two (shifts): (a div 2^t) div 2 == a div 2^(t+1)   [lemma nested_div_by_two]
-    divs, seen3, stack = [], set(), list(exprs)
-    while stack:
-        t = stack.pop()
-        if t.get_id() in seen3:
-            continue
-        seen3.add(t.get_id())
-        if z3.is_quantifier(t):
-            stack.append(t.body())
-        elif z3.is_app(t):
-            if t.decl().kind() == z3.Z3_OP_IDIV and z3.is_app(t.arg(1)) and t.arg(1).decl().name() == "pow2" and not _has_var(t):
-                divs.append((t.arg(0), t.arg(1).arg(0)))
-            stack.extend(t.children())
+    divs = [(t.arg(0), t.arg(1).arg(0)) for t in _gather(exprs, "div")]
     for i, (a1, t1) in enumerate(divs):
         facts.append(z3.Implies(z3.And(t1 >= 0, a1 >= 0), a1 / pow2(t1) >= 0))
         for (a2, t2) in divs[i + 1:]:
@@ -133,18 +177,9 @@ def pow2_instances(exprs, down=2, up=1, max_terms=60):
 
 
 def _strlits(exprs):
-    out, seen, stack = {}, set(), list(exprs)
-    while stack:
-        t = stack.pop()
-        if t.get_id() in seen:
-            continue
-        seen.add(t.get_id())
-        if z3.is_quantifier(t):
-            stack.append(t.body())
-        elif z3.is_app(t):
-            if t.num_args() == 0 and t.decl().name().startswith("strlit!"):
-                out[t.decl().name()] = t
-            stack.extend(t.children())
+    out = {}
+    for t in _gather(exprs, "strlit"):
+        out[t.decl().name()] = t
     return list(out.values())
 
 
@@ -201,24 +236,10 @@ def quantified_pow2_facts(hyps):
 
 def bit_facts(exprs, width=4):
     from .ops import Bit
-    apps, seen = [], set()
-    stack = list(exprs)
-    while stack:
-        t = stack.pop()
-        if t.get_id() in seen:
-            continue
-        seen.add(t.get_id())
-        if z3.is_quantifier(t):
-            stack.append(t.body())
-        elif z3.is_app(t):
-            if t.decl().name() == "Bit" and t.num_args() == 2:
-                apps.append(t)
-            stack.extend(t.children())
+    apps = _gather(exprs, "Bit")
     vals = {}
     for a in apps:
         v = a.arg(0)
-        if _has_var(v):
-            continue
         vals.setdefault(v.get_id(), v)
     facts = []
     for v in vals.values():
